@@ -174,7 +174,7 @@ def judge(case, ctx, prefix='C14'):
             # the time-function annotation of a DC circuit (w = 0): a constant with its sign
             sin0, dg0, hz0 = rng.random() < 0.5, rng.random() < 0.5, rng.random() < 0.5
             adapters.append(('time-domain', lambda: ds.single_frequency_time_domain_steady_state_solution(d, w=0.0, sin=sin0, deg=dg0, hertz=hz0),
-                             {'p': 3, 'mode': 'sinus', 'sin': sin0, 'deg': dg0, 'hertz': hz0, 'scale': 1 / math.sqrt(2)}))
+                             {'p': 3, 'mode': 'sinus', 'sin': sin0, 'deg': dg0, 'hertz': hz0, 'scale': 1.0, 'power_factor': 0.5}))
     else:
         p = rng.randint(1, 6)
         polar, deg = rng.random() < 0.5, rng.random() < 0.5
@@ -188,7 +188,7 @@ def judge(case, ctx, prefix='C14'):
                              {'p': p, 'mode': 'complex', 'polar': polar, 'deg': deg, 'scale': 1 / math.sqrt(2)}))
             sin, dg, hz = rng.random() < 0.5, rng.random() < 0.5, rng.random() < 0.5
             adapters.append(('time-domain', lambda: ds.single_frequency_time_domain_steady_state_solution(d, w=wa, sin=sin, deg=dg, hertz=hz),
-                             {'p': 3, 'mode': 'sinus', 'sin': sin, 'deg': dg, 'hertz': hz, 'scale': 1 / math.sqrt(2)}))
+                             {'p': 3, 'mode': 'sinus', 'sin': sin, 'deg': dg, 'hertz': hz, 'scale': 1.0, 'power_factor': 0.5}))
     ctx.sample({'program': prog, 'family': family, 'adapters': [a[0] for a in adapters]})
     for aname, make, opt in adapters:
         sol = call(make)
@@ -205,7 +205,8 @@ def judge(case, ctx, prefix='C14'):
             if opt['mode'] == 'real':
                 quantities['power'] = (complex(ev.real * ei.real), 'W', refd['s_phi'] * refd['s_i'])
             else:
-                quantities['power'] = (ev * ei.conjugate(), 'W', refd['s_phi'] * refd['s_i'] * sc * sc)
+                # RMS phasors: S = V conj(I); peak phasors (the time-function adapter): S = 1/2 V conj(I)
+                quantities['power'] = (opt.get('power_factor', 1.0) * ev * ei.conjugate(), 'W', refd['s_phi'] * refd['s_i'] * sc * sc)
             for q, (val, unit, s) in quantities.items():
                 for rev in (False, True):
                     f = {'voltage': sol.draw_voltage, 'current': sol.draw_current, 'power': sol.draw_power}[q]
